@@ -8,6 +8,7 @@
 #include "rc.hpp"
 #include "tracked.hpp"
 
+#include <initializer_list>
 #include <vector>
 
 namespace {
@@ -44,11 +45,13 @@ enum Code : std::uint32_t {
     PUSH_CREF, PUSH_RREF, EMPLACE_BACK, POP_BACK, INSERT_CREF, INSERT_RREF, INSERT_N, INSERT_RANGE, EMPLACE_POS, ERASE_POS, ERASE_RANGE,
     RESIZE, RESIZE_VAL, ASSIGN_N, ASSIGN_RANGE, CLEAR, SWAP_MEMBER, SWAP_FREE, COPY_CTOR_MUTATE, COPY_ASSIGN, MOVE_ASSIGN, MOVE_CTOR,
     FREE_ERASE, FREE_ERASE_IF, COMPARE, OBSERVE, SELF_COPY_ASSIGN, CTOR_N, CTOR_N_VAL, CTOR_RANGE,
+    PUSH_ALIAS, INSERT_ALIAS, INSERT_N_ALIAS, EMPLACE_ALIAS,
     NCODES
 };
 char const* const code_names[] = {"push_back(const&)", "push_back(&&)", "emplace_back", "pop_back", "insert(pos,const&)", "insert(pos,&&)", "insert(pos,n,x)", "insert(pos,first,last)",
     "emplace(pos,x)", "erase(pos)", "erase(first,last)", "resize(n)", "resize(n,x)", "assign(n,x)", "assign(first,last)", "clear", "swap(member)", "swap(free)", "copy-ctor+mutate copy",
-    "copy-assign", "move-assign", "move-ctor", "erase(c,v)", "erase_if(c,even)", "compare", "observe", "self copy-assign", "ctor(n)", "ctor(n,x)", "ctor(first,last)"};
+    "copy-assign", "move-assign", "move-ctor", "erase(c,v)", "erase_if(c,even)", "compare", "observe", "self copy-assign", "ctor(n)", "ctor(n,x)", "ctor(first,last)",
+    "push_back(v[i])", "insert(pos,v[i])", "insert(pos,n,v[i])", "emplace(pos,v[i])"};
 
 template <typename T, std::size_t N>
 struct SV {
@@ -108,7 +111,8 @@ struct SV {
                 int src_vals[8]  = {val, val + 1, val + 2, val + 3, val + 4, val + 5, val + 6, val + 7};
                 auto code = op.code % NCODES;
                 // re-map ops that are impossible in the current state
-                if (room == 0 && (code == PUSH_CREF || code == PUSH_RREF || code == EMPLACE_BACK || code == INSERT_CREF || code == INSERT_RREF || code == EMPLACE_POS)) { code = mx.empty() ? OBSERVE : POP_BACK; }
+                if (room == 0 && (code == PUSH_CREF || code == PUSH_RREF || code == EMPLACE_BACK || code == INSERT_CREF || code == INSERT_RREF || code == EMPLACE_POS || code == PUSH_ALIAS || code == INSERT_ALIAS || code == EMPLACE_ALIAS)) { code = mx.empty() ? OBSERVE : POP_BACK; }
+                if (mx.empty() && (code == PUSH_ALIAS || code == INSERT_ALIAS || code == INSERT_N_ALIAS || code == EMPLACE_ALIAS)) { code = room != 0 ? PUSH_CREF : OBSERVE; }
                 if (mx.empty() && (code == POP_BACK || code == ERASE_POS)) { code = room != 0 ? PUSH_CREF : OBSERVE; }
                 if (stats > 1) { vf::count((std::string("op.") + code_names[code]).c_str()); }
                 switch (code) {
@@ -116,6 +120,7 @@ struct SV {
                     T t(val);
                     x.push_back(t);
                     mx.push_back(val);
+                    if (lt::val(t) != val) { err = "push_back(lvalue) modified its argument (moved from an lvalue)"; }
                     break;
                 }
                 case PUSH_RREF: {
@@ -138,6 +143,7 @@ struct SV {
                     auto it = x.insert(x.begin() + pos, t);
                     mx.insert(mx.begin() + pos, val);
                     if (it - x.begin() != pos) { err = "insert(pos,const&) returned iterator offset " + std::to_string(it - x.begin()) + " expected " + std::to_string(pos); }
+                    if (lt::val(t) != val) { err = "insert(pos,lvalue) modified its argument (moved from an lvalue)"; }
                     nt_middle |= (pos > 0 && static_cast<std::size_t>(pos) + 1 < mx.size());
                     break;
                 }
@@ -154,6 +160,7 @@ struct SV {
                     auto it = x.insert(x.begin() + pos, n, t);
                     mx.insert(mx.begin() + pos, n, val);
                     if (it - x.begin() != pos) { err = "insert(pos,n,x) returned iterator offset " + std::to_string(it - x.begin()) + " expected " + std::to_string(pos); }
+                    if (lt::val(t) != val) { err = "insert(pos,n,lvalue) modified its argument"; }
                     nt_middle |= (n > 0 && pos > 0 && static_cast<std::size_t>(pos) + n < mx.size());
                     break;
                 }
@@ -205,6 +212,7 @@ struct SV {
                     T t(val);
                     x.resize(n, t);
                     mx.resize(n, val);
+                    if (lt::val(t) != val) { err = "resize(n,lvalue) modified its argument"; }
                     break;
                 }
                 case ASSIGN_N: {
@@ -212,6 +220,7 @@ struct SV {
                     T t(val);
                     x.assign(n, t);
                     mx.assign(n, val);
+                    if (lt::val(t) != val) { err = "assign(n,lvalue) modified its argument"; }
                     break;
                 }
                 case ASSIGN_RANGE: {
@@ -276,6 +285,41 @@ struct SV {
                     if (auto e = compare("move-constructed", c, mx); !e.empty()) { err = "move constructor: " + e; }
                     x.assign(std::size_t{0}, T(0)); // moved-from object must accept a fresh assignment
                     x = std::move(c);
+                    break;
+                }
+                // arguments that refer to an element of the vector itself: std::vector must cope with them (only assign
+                // has the precondition "not a reference into *this")
+                case PUSH_ALIAS: {
+                    auto i = op.b % mx.size();
+                    int v  = mx[i];
+                    x.push_back(x[i]);
+                    mx.push_back(v);
+                    break;
+                }
+                case INSERT_ALIAS: {
+                    auto i  = op.b % mx.size();
+                    int v   = mx[i];
+                    auto it = x.insert(x.begin() + pos, x[i]);
+                    mx.insert(mx.begin() + pos, v);
+                    if (it - x.begin() != pos) { err = "insert(pos,v[i]) returned iterator offset " + std::to_string(it - x.begin()) + " expected " + std::to_string(pos); }
+                    nt_middle |= (pos > 0 && static_cast<std::size_t>(pos) + 1 < mx.size());
+                    break;
+                }
+                case INSERT_N_ALIAS: {
+                    auto i  = op.b % mx.size();
+                    int v   = mx[i];
+                    auto n  = pick(op.b / 16, room);
+                    auto it = x.insert(x.begin() + pos, n, x[i]);
+                    mx.insert(mx.begin() + pos, n, v);
+                    if (it - x.begin() != pos) { err = "insert(pos,n,v[i]) returned iterator offset " + std::to_string(it - x.begin()) + " expected " + std::to_string(pos); }
+                    break;
+                }
+                case EMPLACE_ALIAS: {
+                    auto i  = op.b % mx.size();
+                    int v   = mx[i];
+                    auto it = x.emplace(x.begin() + pos, x[i]);
+                    mx.insert(mx.begin() + pos, v);
+                    if (it - x.begin() != pos) { err = "emplace(pos,v[i]) returned iterator offset " + std::to_string(it - x.begin()) + " expected " + std::to_string(pos); }
                     break;
                 }
                 case FREE_ERASE: {
@@ -430,6 +474,7 @@ struct IV {
                 case I_TRY_PUSH_CREF: {
                     T t(val);
                     check_ptr(x.try_push_back(t), "try_push_back(const&)");
+                    if (lt::val(t) != val) { err = "try_push_back(lvalue) modified its argument"; }
                     break;
                 }
                 case I_TRY_PUSH_RREF: check_ptr(x.try_push_back(T(val)), "try_push_back(&&)"); break;
@@ -439,6 +484,7 @@ struct IV {
                         T t(val);
                         T& r = x.unchecked_push_back(t);
                         mx.push_back(val);
+                        if (lt::val(t) != val) { err = "unchecked_push_back(lvalue) modified its argument"; }
                         if (&r != x.data() + (mx.size() - 1)) { err = "unchecked_push_back(const&) returned a reference that is not the new last element"; }
                     }
                     break;
@@ -582,6 +628,7 @@ struct STK {
                     T t(val);
                     x.push(t);
                     mx.push_back(val);
+                    if (lt::val(t) != val) { err = "push(lvalue) modified its argument"; }
                     break;
                 }
                 case S_PUSH_RREF: x.push(T(val)); mx.push_back(val); break;
@@ -645,6 +692,68 @@ struct STK {
         return err;
     }
 };
+
+
+// ------------------------------------------------------------------ emplace forwards its arguments to a constructor call T(args...)
+// (not to list-initialisation): an element type for which T(a, b) and T{a, b} differ
+struct IL {
+    int v{0};
+    IL() = default;
+    IL(int a, int b) : v{a * 10 + b} { }
+    IL(std::initializer_list<int> l) : v{-static_cast<int>(l.size())} { }
+};
+struct EmpCase {
+    int which;
+    int a, b;
+};
+auto show_case(EmpCase const& k) -> std::string { return std::to_string(k.which) + " " + std::to_string(k.a) + " " + std::to_string(k.b); }
+auto run_emplace(EmpCase const& k) -> std::string
+{
+    std::vector<IL> m;
+    m.emplace_back(k.a, k.b);
+    int expect = m.back().v;
+    int got    = 0;
+    char const* what = "";
+    switch (k.which) {
+    case 0: {
+        etl::static_vector<IL, 4> v;
+        v.emplace_back(k.a, k.b);
+        got  = v.back().v;
+        what = "static_vector::emplace_back(a,b)";
+        break;
+    }
+    case 1: {
+        etl::static_vector<IL, 4> v;
+        v.emplace_back(0, 0);
+        auto it = v.emplace(v.begin(), k.a, k.b);
+        got     = it->v;
+        what    = "static_vector::emplace(pos,a,b)";
+        break;
+    }
+    case 2: {
+        etl::inplace_vector<IL, 4> v{};
+        auto* p = v.try_emplace_back(k.a, k.b);
+        got     = p != nullptr ? p->v : -99;
+        what    = "inplace_vector::try_emplace_back(a,b)";
+        break;
+    }
+    case 3: {
+        etl::inplace_vector<IL, 4> v{};
+        got  = v.unchecked_emplace_back(k.a, k.b).v;
+        what = "inplace_vector::unchecked_emplace_back(a,b)";
+        break;
+    }
+    default: {
+        etl::stack<IL, etl::static_vector<IL, 4>> st;
+        st.emplace(k.a, k.b);
+        got  = st.top().v;
+        what = "stack::emplace(a,b)";
+        break;
+    }
+    }
+    if (got != expect) { return std::string(what) + " constructed the element with value " + std::to_string(got) + ", std::vector::emplace_back(a,b) gives " + std::to_string(expect) + " (constructor call vs list-initialisation)"; }
+    return "";
+}
 
 // ------------------------------------------------------------------ configuration table
 struct Config {
@@ -725,6 +834,23 @@ void vf_run(vf::Ctx& c)
             });
         }
     }
+    if (IN_PART(2) && c.shard == 0) {
+        for (int which = 0; which < 5; ++which) {
+            for (int a = 0; a < 4; ++a) {
+                for (int b = 0; b < 4; ++b) {
+                    EmpCase k{which, a, b};
+                    vf::Flight<EmpCase> fl("emplace_forwarding", k);
+                    vf::eval("emplace_forwarding");
+                    auto d = run_emplace(k);
+                    if (!d.empty()) {
+                        vf::mismatch("emplace_forwarding", k, d);
+                        return;
+                    }
+                    vf::nontrivial(vf::mix(vf::mix(vf::mix(991ULL, which), a), b));
+                }
+            }
+        }
+    }
     // E1: random histories, every configuration
     int per_cfg = c.thorough() ? 8000 : 1200;
     for (std::uint32_t ci = 0; ci < nconfigs; ++ci) {
@@ -745,8 +871,14 @@ void vf_run(vf::Ctx& c)
     }
 }
 
-std::string vf_replay(std::string const&, std::string const& cs)
+std::string vf_replay(std::string const& sub, std::string const& cs)
 {
+    if (sub == "emplace_forwarding") {
+        EmpCase k{0, 0, 0};
+        std::sscanf(cs.c_str(), "%d %d %d", &k.which, &k.a, &k.b);
+        vf::Flight<EmpCase> fl("emplace_forwarding", k);
+        return run_emplace(k);
+    }
     auto k = vf::parse_ops(cs);
     vf::Flight<OpsCase> fl("replay", k);
     std::fprintf(stderr, "replaying: %s\n", describe(k).c_str());
